@@ -880,7 +880,7 @@ def run(ctx, res):
         expect.append(impl)
         meta.append((where, case))
 
-    per_op = ctx.scale(20, 300, 120)
+    per_op = ctx.scale(30, 300, 120)
     cheap = {"sample_mvn", "policy", "scorer_random", "dbal_direct", "holdout_random", "holdout_plate", "select_next_plate"}
     for op in OPS:
         n = per_op if (op in cheap or ctx.tier != "quick") else max(10, per_op * 3 // 4)
@@ -898,6 +898,14 @@ def run(ctx, res):
             if nontrivial:
                 res.nontrivial.add(common.short_hash(case))
                 res.count("drew." + op)
+            if A["err"] is None and A["toks"] and any(t.startswith("clines=") for t in A["toks"]):
+                kv = dict(t.split("=") for t in A["toks"])
+                if "0" in kv["clines"]:
+                    res.count("prior_branch.sample_without_data." + op)
+                if "0" in kv["dds"]:
+                    res.count("prior_branch.treatment_without_data." + op)
+                if "1" in kv["clines"] and "1" in kv["dds"]:
+                    res.count("posterior_branch." + op)
             if t == 0:
                 res.sample({"op": op, "model_line": (" ".join(["c18.trace", A["model_op"]] + A["toks"]) if A["err"] is None else A["err"]),
                             "events": A["events"][:12], "n_events": len(A["events"])})
